@@ -53,7 +53,8 @@ TRUSTED = [
     "harness/c18_run.py: HTTP adapter over the Flask test client (synchronous request inside the coroutine), "
     "ConcurrentWorkerPool over a 2-thread executor, appboot.Clock advanced by the patched asyncio.sleep",
     "harness/mp4walk.py (what the validator parsed is re-read independently from the bytes it was given), lxml",
-    "classification of the validator's error messages into the model's error kinds (harness/c18_model.py)",
+    "classification of the validator's error messages into the model's error kinds (harness/c18_model.py): the "
+    "message texts are treated as the validator's observable output",
 ]
 ASSUMPTIONS = [
     "streams bbb and tears (regular segment durations); templates and options restricted to what each "
@@ -61,7 +62,10 @@ ASSUMPTIONS = [
     "live: timeShiftBufferDepth >= 30 s (> 2 x the longest segment, ledger entry no-segments-short-depth); "
     "vod: requested duration <= stream duration (ledger entry vod-duration-beyond-stream)",
     "corruptions: exactly one response per session; decode-time and S@d changes exceed the validator's "
-    "tolerance; SegmentTimeline edits are interior and inside the validated prefix",
+    "tolerance; SegmentTimeline edits are interior and inside the validated prefix; "
+    "MPD@mediaPresentationDuration counts as mandatory only when a Period has no @duration; MPD@publishTime "
+    "(ledger publish-time-not-required) and minf/stbl/stsd of encrypted audio/text init segments (ledger "
+    "encrypted-track-init-without-sample-entry) are excluded",
     "float steps of the validator (timedelta(seconds=float), total_seconds()*timescale) are exact on the "
     "whole-second depths and the timescales used",
 ]
